@@ -63,6 +63,17 @@ def vectors(rng, np, domain, L, n_random, zeros=True):
             if zeros and rng.random() < 0.25:
                 v[rng.randrange(L)] = 0.0
         out.append(v.tolist())
+    if domain == "nonneg" and L >= 2:
+        # normalised histograms (components summing to 1, up to rounding) are non-negative vectors too - and the inputs most
+        # users of the ratio / root metrics actually have; near-identical pairs among them (one bin nudged by an ulp-sized amount)
+        for v in list(out[-n_random:])[: max(2, n_random // 3)]:
+            s_ = sum(v)
+            if s_ > 0:
+                h = [a / s_ for a in v]
+                out.append(h)
+                g = list(h)
+                g[0] = g[0] * (1 + 2.0 ** -50)
+                out.append(g)
     if domain == "simplex":
         res = []
         for v in out:
